@@ -158,9 +158,7 @@ func runDggsvd3(t *vlib.T, m, p, n int, f gsvdFam, ldx int) {
 		if msg := catch(func() {
 			k, l, conv = impl.Dggsvd3(jobU, jobV, jobQ, m, n, p, as.d, lda, bs.d, ldb, alpha, beta, ud, ldu, vd, ldv, qd, ldq, poisoned(lwork), lwork, iwork)
 		}); msg != "" {
-			if strings.Contains(lastStack, "dorm2r.go") && strings.Contains(lastStack, "dggsvp3.go") {
-				finding(t, "dggsvp3-defects", "Dggsvd3 panicked: %s %s [%s]", msg, lastStack, ctx)
-			} else if m == 0 && n > 0 && strings.Contains(msg, "slice bounds out of range") {
+			if m == 0 && n > 0 && strings.Contains(msg, "slice bounds out of range") {
 				finding(t, "dggsvd3-m0-slice-panic", "Dggsvd3 with m=0 (A has no rows) n=%d p=%d panics: %s %s [%s]", n, p, msg, lastStack, ctx)
 			} else {
 				t.FailClass("unexpected-panic", "Dggsvd3 panicked: %s [%s lwork=%d] %s", msg, ctx, lwork, lastStack)
@@ -280,14 +278,12 @@ func runDggsvd3(t *vlib.T, m, p, n int, f gsvdFam, ldx int) {
 	}
 }
 
-// gsvdAttribute tags a failed GSVD case with the class of the three defects of
-// Dggsvp3 described in NOTES.md (all failures of the GSVD groups on the
-// unchanged tree disappear when they are repaired) and attaches the inputs.
+// gsvdAttribute attaches the inputs of a failed GSVD case.
 func gsvdAttribute(t *vlib.T, a, b M) {
 	if a.r*a.c+b.r*b.c <= 64 {
 		t.Detail(map[string]any{"a": fmt.Sprint(a.a), "b": fmt.Sprint(b.a)})
+		t.Failf("inputs: A(%dx%d)=%v B(%dx%d)=%v", a.r, a.c, a.a, b.r, b.c, b.a)
 	}
-	finding(t, "dggsvp3-defects", "inputs: A(%dx%d)=%v B(%dx%d)=%v", a.r, a.c, a.a, b.r, b.c, b.a)
 }
 
 // ---------------------------------------------------------------------------
@@ -340,8 +336,6 @@ func runDggsvp3(t *vlib.T, m, p, n int, f gsvdFam, lw string) {
 		k, l = impl.Dggsvp3(lapack.GSVDU, lapack.GSVDV, lapack.GSVDQ, m, p, n, as.d, lda, bs.d, ldb, tola, tolb, us.d, ldu, vs.d, ldv, qs.d, ldq, iwork, tau, poisoned(lwork), lwork)
 	}); msg != "" {
 		switch {
-		case strings.Contains(lastStack, "dorm2r.go:") && strings.Contains(msg, "insufficient length of a"):
-			finding(t, "dggsvp3-defects", "Dggsvp3 panicked: %s %s", msg, lastStack)
 		case m == 0 && n > 0 && strings.Contains(msg, "slice bounds out of range"):
 			finding(t, "dggsvd3-m0-slice-panic", "Dggsvp3 with m=0 (A has no rows) n=%d p=%d panics: %s %s", n, p, msg, lastStack)
 		default:
